@@ -23,7 +23,7 @@ def _event(vc, ts, te, func=_FUNC, thrusting=False):
     return vc.new(FT + "ScheduledFiniteBurn", start_time=ts, end_time=te, thrust_func=func, agent_id=1, _thrusting=thrusting)
 
 
-@obligation("C15", "signs", ensures=["O-C15-signs.start", "O-C15-signs.end", "O-C15-signs.nowhere-else"], fns=[FT + "ScheduledFiniteThrust.__call__"], mode="R",
+@obligation("C15", "signs", ensures=["O-C15-signs.start", "O-C15-signs.end", "O-C15-signs.nowhere-else", "O-C15-signs.zero-at-both-ends"], fns=[FT + "ScheduledFiniteThrust.__call__"], mode="R",
             assumes=IVP, note="while the thrust is off the event function changes sign across the start of the interval (however far the integrator steps beyond it) and nowhere else; once the thrust is on it changes sign across the end of the interval and nowhere else - so the integrator stops at both ends wherever they fall relative to the step grid")
 def signs(vc):
     ts = vc.real("ts", 0, 1e6)
@@ -41,9 +41,12 @@ def signs(vc):
     same_side_off = vc.And(vc.Or(t2 < ts - eps, t1 > ts + eps), abs(t1 - te) > eps, abs(t2 - te) > eps)
     same_side_on = vc.And(vc.Or(t2 < te - eps, t1 > te + eps), abs(t1 - ts) > eps, abs(t2 - ts) > eps)
     vc.ensure("O-C15-signs.nowhere-else", vc.And(vc.implies(same_side_off, g1 * g2 > 0), vc.implies(same_side_on, h1 * h2 > 0)))
+    # at the exact start and the exact end the function is zero WHATEVER the event remembers about being on or off (an integration that begins exactly
+    # on the start - the previous call stopped there - must fire at once, also when the same event object already switched on at the end of that call)
+    vc.ensure("O-C15-signs.zero-at-both-ends", vc.And(vc.eq(off(ts, None), 0), vc.eq(on(ts, None), 0), vc.eq(off(te, None), 0), vc.eq(on(te, None), 0)))
 
 
-@obligation("C15", "toggle", ensures=["O-C15-toggle.start", "O-C15-toggle.end"], fns=[FT + "ScheduledFiniteThrust.getStateChangeCallback"], mode="R", assumes=IVP,
+@obligation("C15", "toggle", ensures=["O-C15-toggle.start", "O-C15-toggle.end", "O-C15-toggle.zero-length"], fns=[FT + "ScheduledFiniteThrust.getStateChangeCallback"], mode="R", assumes=IVP,
             note="at a root reported near the start crossing the callback is the thrust function (and the event starts watching for the end), near the end crossing it is None (and the event stops watching) - for any root within the root finder's tolerance (1e-9 s), not only a bit-exact one")
 def toggle(vc):
     ts = vc.real("ts", 0, 1e6)
@@ -57,6 +60,10 @@ def toggle(vc):
     vc.ensure("O-C15-toggle.start", r1 is ev.thrust_func and ev._thrusting is True)
     r2 = ev.getStateChangeCallback(te + err)
     vc.ensure("O-C15-toggle.end", r2 is None and ev._thrusting is False)
+    # a zero-length interval (an event configured without an end time: end = start) delivers nothing: the only switch it ever makes is "off"
+    z = _event(vc, ts, ts)
+    r3 = z.getStateChangeCallback(ts + err)
+    vc.ensure("O-C15-toggle.zero-length", r3 is None and z._thrusting is False)
 
 
 @obligation("C15", "rearm", ensures=["O-C15-rearm.inside", "O-C15-rearm.outside", "O-C15-rearm.events", "O-C15-rearm.watches"], fns=[CE + "Celestial._prepEvents", FT + "ScheduledFiniteThrust.getStateChangeCallback", FT + "ScheduledFiniteThrust.__call__"],
